@@ -6,7 +6,7 @@ proved over it.
 -/
 namespace A2Verif.Srv
 
-variable (an : Text → Option Diags)
+variable (an : Nat → Text → Option Diags)
 
 /-! ### small facts -/
 
@@ -82,7 +82,7 @@ structure Harvest (s s' : State) (j : Job) : Prop where
 
 inductive Trans (s s' : State) (e : Event) : Prop
   | ext (new : List Job) (h : Ext s s' new) (hne : ∀ id, e ≠ .die id ∧ e ≠ .finish id ∧ e ≠ .acquire id)
-      (hpriv : (∀ l o, e ≠ .config l o) → ∀ j ∈ new, j.priv = false)
+      (hpriv : (∀ c l o, e ≠ .config c l o) → ∀ j ∈ new, j.priv = false)
   | acq (id : Nat) (j : Job) (he : e = .acquire id) (hj : findJob s.queue id = some j)
       (hst : j.st = .spawned) (hu : Upd s s' id (fun _ => .holding))
       (hl : (j.priv = true ∧ s'.lock = s.lock) ∨ (j.priv = false ∧ s.lock = .free ∧ s'.lock = .held id))
@@ -90,7 +90,7 @@ inductive Trans (s s' : State) (e : Event) : Prop
       (hst : j.st = .spawned) (hp : j.priv = false) (hu : Upd s s' id (fun _ => .done none))
       (hl : s.lock = .poisoned ∧ s'.lock = .poisoned)
   | fin (id : Nat) (j : Job) (he : e = .finish id) (hj : findJob s.queue id = some j)
-      (hst : j.st = .holding) (hu : Upd s s' id (fun j => .done (an j.doc.text)))
+      (hst : j.st = .holding) (hu : Upd s s' id (fun j => .done (an j.id j.doc.text)))
       (hl : (j.priv = true ∧ s'.lock = s.lock) ∨ (j.priv = false ∧ s'.lock = .free))
   | die (id : Nat) (j : Job) (he : e = .die id) (hj : findJob s.queue id = some j)
       (hst : j.st = .holding) (hu : Upd s s' id (fun _ => .dead))
@@ -192,20 +192,20 @@ theorem step_trans {s s' : State} {e : Event} (hs : step an s e = some s') : Tra
     simp only [step, Option.some.injEq] at hs
     subst hs
     exact .ext [] (Ext.of_eq rfl rfl rfl rfl rfl) (by simp) (by simp)
-  | configLock =>
+  | configLock c =>
     simp only [step] at hs
     split at hs
     · simp at hs
     · simp only [Option.some.injEq] at hs
       subst hs
       exact .ext [] (Ext.refl _) (by simp) (by simp)
-  | config live order =>
+  | config c live order =>
     simp only [step] at hs
     split at hs
     · simp only [Option.some.injEq] at hs
       subst hs
       obtain ⟨new, h⟩ := relaunch_ext order { s with live := live }
-      refine .ext new ?_ (by simp) (fun h => absurd rfl (h _ _))
+      refine .ext new ?_ (by simp) (fun h => absurd rfl (h _ _ _))
       exact { queue := h.queue, launched := h.launched, published := h.published, lock := h.lock,
               nextId := h.nextId, fresh := h.fresh, sorted := h.sorted, bound := h.bound }
     · simp at hs
